@@ -786,6 +786,13 @@ fn c05(r: &mut Rng, fonts: &[FontInfo], n: u64, tr: &mut Option<std::fs::File>) 
         let mut reqs: Vec<Req> = Vec::new();
         for _ in 0..steps {
             let mut rq = gen_req_s(r, fi, 20);
+            if std::ptr::eq(fi, &limit) && r.chance(1, 3) {
+                // a text long enough to raise the length limit above its floor (64 n > 16384): what it leaves
+                // allocated must not let a later, shorter text grow further than it may on a fresh buffer
+                let k = 257 + r.below(400) as usize;
+                let c = fi.chars[0];
+                rq.text = (0..k).map(|j| (c, j as u32)).collect();
+            }
             match r.below(12) {
                 0 => rq.text.clear(), // empty text
                 2 | 3 => {
